@@ -13,6 +13,8 @@ package main
 //  (vii) mixed sizes: the runs of (ii) with argument and result payloads from a few bytes to several
 //        hundred KiB in the same run, over a byte relay (the real readers see the very bytes the real
 //        writers produced; a tap gives the trace) and over net.Pipe, a unix socket and a TCP socket
+//  (viii) calls issued while the connection is being torn down (c04teardown.go)
+//  (ix)  calls pipelined to one object whose method adds/removes objects of its own service (c04factory.go)
 
 import (
 	"bytes"
